@@ -16,14 +16,22 @@ pub fn mod_(
     let x = quantity_arg!(args);
     let y = quantity_arg!(args);
 
-    let x_value = x.unsafe_value().to_f64();
+    // A zero can be written without a unit (the literal `0` has any dimension):
+    // use the unit of the other argument then.
+    let unit = if x.is_zero() { y.unit() } else { x.unit() };
+
+    let x_value = x
+        .convert_to(unit)
+        .map_err(|e| Box::new(RuntimeErrorKind::QuantityError(e)))?
+        .unsafe_value()
+        .to_f64();
     let y_value = y
-        .convert_to(x.unit())
+        .convert_to(unit)
         .map_err(|e| Box::new(RuntimeErrorKind::QuantityError(e)))?
         .unsafe_value()
         .to_f64();
 
-    return_quantity!(x_value.rem_euclid(y_value), x.unit().clone())
+    return_quantity!(x_value.rem_euclid(y_value), unit.clone())
 }
 
 // A simple math function with signature 'Fn[(Scalar) -> Scalar]'
@@ -70,9 +78,17 @@ pub fn atan2(
     let y = quantity_arg!(args);
     let x = quantity_arg!(args);
 
-    let y_value = y.unsafe_value().to_f64();
+    // A zero can be written without a unit (the literal `0` has any dimension):
+    // use the unit of the other argument then.
+    let unit = if y.is_zero() { x.unit() } else { y.unit() };
+
+    let y_value = y
+        .convert_to(unit)
+        .map_err(|e| Box::new(RuntimeErrorKind::QuantityError(e)))?
+        .unsafe_value()
+        .to_f64();
     let x_value = x
-        .convert_to(y.unit())
+        .convert_to(unit)
         .map_err(|e| Box::new(RuntimeErrorKind::QuantityError(e)))?
         .unsafe_value()
         .to_f64();
